@@ -59,16 +59,22 @@ Proof.
     destruct acked; [|specialize (Ha eq_refl); discriminate Ha].
     destruct f as [pv b u|r pv|k c|c|].
     + split; [destruct opened; reflexivity|intro H; discriminate H].
-    + destruct (negb (pv =? hv)).
+    + destruct (negb ((if 1000 <=? pv then pv - 1000 else pv) =? hv)).
       * split; [destruct opened; reflexivity|]. intros _. split; [reflexivity|].
         split; [discriminate|]. unfold opened_next. cbn. rewrite orb_false_r. exact Ho.
       * destruct r.
         -- destruct iss; cbn [negb].
+           ++ destruct (1000 <=? pv).
+              ** split; [destruct opened; reflexivity|]. intros _. split; [reflexivity|].
+                 split; [discriminate|]. unfold opened_next. cbn. rewrite orb_false_r. exact Ho.
+              ** split; [destruct opened; reflexivity|]. intros _. split; [reflexivity|].
+                 split; [discriminate|]. unfold opened_next. cbn. rewrite orb_true_r. discriminate.
+           ++ split; [destruct opened; reflexivity|intro H; discriminate H].
+        -- destruct (1000 <=? pv).
+           ++ split; [destruct opened; reflexivity|]. intros _. split; [reflexivity|].
+              split; [discriminate|]. unfold opened_next. cbn. rewrite orb_false_r. exact Ho.
            ++ split; [destruct opened; reflexivity|]. intros _. split; [reflexivity|].
               split; [discriminate|]. unfold opened_next. cbn. rewrite orb_true_r. discriminate.
-           ++ split; [destruct opened; reflexivity|intro H; discriminate H].
-        -- split; [destruct opened; reflexivity|]. intros _. split; [reflexivity|].
-           split; [discriminate|]. unfold opened_next. cbn. rewrite orb_true_r. discriminate.
     + destruct (negb (ch =? 0) && negb c);
         [split; [destruct opened; reflexivity|intro H; discriminate H]|].
       cbn [andb]. destruct iss; cbn [negb].
